@@ -332,6 +332,11 @@ def _(c):
 def _(c):
     c.closure("results", T.any_list())
     c.closure("fut", T.future(pending=True, promise=SCAN_DONE_PROMISE))
+    # should the code rename them: the collected list is the local that starts as `[]`, the waiter the one made by
+    # create_future(); the closure itself is the function of _list_command that looks at `item_frames`
+    c.closure_role("results", "=[]")
+    c.closure_role("fut", "uture(")  # create_future() / asyncio.Future()
+    c.located_by = ("bellows.ezsp.EZSP._list_command", "item_frames")
     c.closure("item_frames", T.const(["energyScanResultHandler", "networkFoundHandler"]))
     c.closure("completion_frame", T.const("scanCompleteHandler"))
     c.arg("response", T.opaque)
